@@ -299,6 +299,32 @@ def check_release(program, rep):
         else:
             rep.ok(f'C04.{rule}', site, f'{f.qualname}: release loop', okmsg,
                    line=f.node.lineno)
+    # an exception raised by a callback leaves the setter: the delivery is
+    # not inside a `try` whose handlers swallow (or mistake for "queue empty")
+    # what callbacks raise
+    for g in [f] + [e.func for ex in exits for e in ex.state.trace
+                    if e.kind == 'enter' and e.func is not None]:
+        for t in ast.walk(g.node):
+            if not isinstance(t, ast.Try) or not t.handlers:
+                continue
+            delivering = [c for s in t.body for c in ast.walk(s)
+                          if isinstance(c, ast.Call) and (
+                              dotted(c.func) == 'self.dispatch'
+                              or isinstance(c.func, (ast.Call,
+                                                     ast.Subscript)))]
+            swallowing = [h for h in t.handlers if not (
+                h.body and isinstance(h.body[-1], ast.Raise)
+                and h.body[-1].exc is None)]
+            if delivering and swallowing:
+                rep.bad('C04.release', g.where, delivering[0],
+                        'the delivery sits inside a `try` whose handler ('
+                        f'except {norm(swallowing[0].type) if swallowing[0].type is not None else ""}) '
+                        'does not re-raise: an exception of that type raised '
+                        'by a CALLBACK is taken for the condition the handler '
+                        'was written for (e.g. "queue empty"), the enabling '
+                        'assignment returns normally and the remaining '
+                        'events stay queued', line=delivering[0].lineno)
+                break
     # other writers of the queue in the package
     disp = evrules.dispatcher_class(program)
     for c in [disp] + program.subclasses(disp):
